@@ -77,6 +77,19 @@ func curatedLexSpecs() []*LSpec {
 	// overlapping classes that must be split into pieces; a literal inside the overlap
 	out = append(out, finishSpec(&LMode{Rules: []*LRule{
 		tokRule(seq(cls(false, "", RRange{'a', 'm'}))), tokRule(seq(cls(false, "", RRange{'h', 'z'}), lit("!", ""))), tokRule(seq(lit("k", ""), lit("?", ""))), ws}}))
+	// many single-character tokens, one of them also covered by a class token: DFA states with several accepting
+	// NFA states next to leaves with one (state-merging criteria in minimisation; NFA state numbers 1 … 40)
+	for _, classAt := range []int{1, 0, 4} {
+		var rules []*LRule
+		for i := 0; i < 16; i++ {
+			if i == classAt {
+				rules = append(rules, tokRule(seq(cls(false, "", RRange{'a', 'b'}, RRange{'q', 'q'}))))
+			}
+			rules = append(rules, tokRule(seq(lit(string(rune('a'+i)), ""))))
+		}
+		rules = append(rules, ws)
+		out = append(out, finishSpec(&LMode{Rules: rules}))
+	}
 	// more than 256 terminals: token numbers that differ by a multiple of 256 (row sharing keys, byte-sized
 	// encodings); leaf accepting states of the same mode differ in the token number only
 	{
